@@ -10,7 +10,7 @@ RULE = (
     "Hypothesis cubes as in C02 (0..3 dims quick, up to 4 thorough; 1..3 axes; any common; inferred / exact / padded "
     "shape) x aggregate in {count, valid_count, sum, mean} x fact form (NaN-marked or (values, validity) with junk "
     "under False validity, 1-D or (N, K<=3), float64 or int64, arrays or nested lists) x weight form (None, scalar "
-    "incl. 0 and NaN, float or int array, NaN-marked or with validity and junk) x ignore_missing x report format. "
+    "incl. 0 and NaN, float or int array, NaN-marked or with validity and junk, one in six float arrays with weights 10^9 apart in magnitude) x ignore_missing x report format. "
     "The array cube receives the same dense data cast to a drawn integer dtype (int8..uint64), with explicit or "
     "inferred shape; the two cubes get fresh copies of the fact / weight arguments, or the very same objects one after "
     "the other in either order. Oracle: pure-Python per-cell group-by with math.fsum; three-way comparison oracle / ccube / "
@@ -147,7 +147,8 @@ def check(case, rec):
     rec.note("args=" + sharing)
     rec.note("agg=" + agg, "nd=%d" % nd, "ignore=%s" % case["ignore"], "via=" + case.get("via", "method"),
              "weights=" + ("none" if w is None else w["kind"] + ("/" + w.get("form", "") if w["kind"] == "array" else "")
-                           + ("/rough" if w is not None and w.get("rough") else "")),
+                           + ("/rough" if w is not None and w.get("rough") else "")
+                           + ("/wide magnitudes" if w is not None and w.get("wide") else "")),
              "rma=" + (case["rma"] if isinstance(case["rma"], str) else "tuple"))
     if case["fact"] is not None:
         f = case["fact"]
